@@ -108,16 +108,28 @@ def execute(sc, mutant=None):
         if mutant:
             mutant(cf)
 
+        # An application may start a new request from inside a completion callback (the library
+        # says so: "call callbacks after the lock has been released to allow for new writes to be
+        # initiated from the callback").  sc['reenter'] = {'on': kind of notification, 'op': request}
+        # makes the first such notification do that.
+        reenter = dict(sc.get('reenter') or {})
+
+        def note(k, mem, addr, data):
+            w.event(e='note', k=k, m=mem.id + 1, addr=addr, data=list(data))
+            if reenter.get('on') == k and 'mems' in state:
+                op = reenter.pop('op')
+                reenter.clear()
+                if op[0] == 'read':
+                    api('read', op[1], op[2], op[3])
+                else:
+                    api('write', op[1], op[2], op[3], bytearray([0xA5] * op[3]), False)
+
         def hook_mem_callbacks():
             m = cf.mem
-            m.mem_read_cb.add_callback(lambda mem, addr, data: w.event(
-                e='note', k='read_ok', m=mem.id + 1, addr=addr, data=list(data)))
-            m.mem_read_failed_cb.add_callback(lambda mem, addr, data: w.event(
-                e='note', k='read_fail', m=mem.id + 1, addr=addr, data=list(data)))
-            m.mem_write_cb.add_callback(lambda mem, addr: w.event(
-                e='note', k='write_ok', m=mem.id + 1, addr=addr, data=[]))
-            m.mem_write_failed_cb.add_callback(lambda mem, addr: w.event(
-                e='note', k='write_fail', m=mem.id + 1, addr=addr, data=[]))
+            m.mem_read_cb.add_callback(lambda mem, addr, data: note('read_ok', mem, addr, data))
+            m.mem_read_failed_cb.add_callback(lambda mem, addr, data: note('read_fail', mem, addr, data))
+            m.mem_write_cb.add_callback(lambda mem, addr: note('write_ok', mem, addr, []))
+            m.mem_write_failed_cb.add_callback(lambda mem, addr: note('write_fail', mem, addr, []))
 
         def on_disc(uri):
             state['dropped'] += 1
@@ -302,10 +314,37 @@ def gen_scenario(rng, tier, kind):
             'img_seed': rng.randrange(1 << 30)}
 
 
+def reenter_scenarios():
+    """A completion callback that starts a new request: from success and from failure notifications,
+    failures by error status and by link drop (driver- and sender-reported), both device modes."""
+    out = []
+    RW = ('write', 0, MEM_SIZE - 14, 2)       # a range no other request of these scenarios touches
+    RR = ('read', 1, 7, 3)
+    k = 0
+    for mode in ('sync', 'thread'):
+        for nop in (RW, RR):
+            base_w = [('write', 0, 2, 30, False), ('write', 0, 60, 3, False), ('sleep', 1.0)]
+            base_r = [('read', 0, 2, 45), ('sleep', 1.0)]
+            cases = [('write_ok', base_w, {}), ('read_ok', base_r, {}),
+                     ('write_fail', base_w, {'err': [1]}), ('write_fail', base_w, {'err': [2]}),
+                     ('read_fail', base_r, {'err': [2]}),
+                     ('write_fail', base_w, {'drop_after': 1, 'drop_by': 'driver'}),
+                     ('write_fail', base_w, {'drop_after': 2, 'drop_by': 'driver'}),
+                     ('read_fail', base_r, {'drop_after': 1, 'drop_by': 'driver'}),
+                     ('write_fail', base_w, {'drop_after': 2, 'drop_by': 'sender'}),
+                     ('read_fail', base_r, {'drop_after': 2, 'drop_by': 'sender'})]
+            for (on, ops, faults) in cases:
+                for pol in (('fifo', 0), ('pct', 1000 + k), ('random', 2000 + k)):
+                    k += 1
+                    out.append({'ops': list(ops), 'faults': dict(faults), 'mode': mode, 'policy': pol, 'img_seed': 77 + k,
+                                'reenter': {'on': on, 'op': nop}})
+    return out
+
+
 def systematic_scenarios():
     """Every chunk-boundary length for one read and one write, at two addresses, and the
     duplicated-final-ack family (dup of every k-th reply for a k-chunk write followed by idle)."""
-    out = []
+    out = reenter_scenarios()
     for ln in range(0, 62):
         out.append({'ops': [('read', 0, 3, ln)], 'faults': {}, 'mode': 'sync', 'policy': ('fifo', 0), 'img_seed': ln})
     for ln in range(0, 77):
